@@ -33,17 +33,25 @@ let parse_opts (t : string list) : gopts * n list =
   | _ -> raise (Bad "opts")
 
 (* E code D n {ep ok}*n R call W ms [V code D n {ep ok}*n]   (V...: second update of a UC line) *)
+(* dial codes: 0 failed, 1 succeeded, 2 succeeded and the ClientConn was READY when DialFunc returned *)
+let ready_of_dials : (string list) -> n list =
+  let rec go = function a :: b :: r -> if b = "2" then ion a :: go r else go r | _ -> [] in go
+
+let last_readys : (n list * n list) ref = ref ([], [])
+
 let parse_outs (t : string list) : gout * gout option =
   let rec pairs = function a :: b :: r -> (ion a, b <> "0") :: pairs r | _ -> [] in
   match t with
   | "E" :: c :: "D" :: n :: r ->
       let (ds, rest) = take_n (2 * int_of_string n) r in
       let o1 call = { og_err = ioz c; og_dials = pairs ds; og_call = ioz call } in
+      last_readys := (ready_of_dials ds, []);
       (match rest with
        | "R" :: call :: "W" :: _ :: [] -> (o1 call, None)
        | "R" :: call :: "W" :: _ :: "V" :: c2 :: "D" :: n2 :: r2 ->
            let (ds2, rest2) = take_n (2 * int_of_string n2) r2 in
            if rest2 <> [] then raise (Bad "outs tail 2");
+           last_readys := (ready_of_dials ds, ready_of_dials ds2);
            (o1 call, Some { og_err = ioz c2; og_dials = pairs ds2; og_call = z_of_int 0 })
        | _ -> raise (Bad "outs tail"))
   | _ -> raise (Bad ("outs: " ^ String.concat " " t))
@@ -93,9 +101,10 @@ let parse_obs (t : string list) : gobs =
 
 let parse_op (t : string list) (out : gout) : gop =
   match t with
-  | ("H" | "U") :: r ->
+  | ("H" | "U" | "UR") :: r ->
       let (o, fails) = parse_opts r in
-      GUpdate (o, fails, List.map fst out.og_dials)      (* dial order oracle: the dial log *)
+      (* dial order oracle and READY-at-dial set: read from the dial log *)
+      GUpdate (o, fails, List.map fst out.og_dials, fst !last_readys)
   | "UB" :: r ->
       (* an update with a blocked dial and a flap of endpoint e meanwhile: for the model an
          ordinary update (the readiness of e is the same before and after; the harness
@@ -105,7 +114,7 @@ let parse_op (t : string list) (out : gout) : gop =
         | x :: r' -> split (x :: acc) r'
         | [] -> raise (Bad "UB without K") in
       let (o, fails) = parse_opts (split [] r) in
-      GUpdate (o, fails, List.map fst out.og_dials)
+      GUpdate (o, fails, List.map fst out.og_dials, fst !last_readys)
   | ["SU"; e] -> GMark (true, ion e)
   | ["SD"; e] -> GMark (false, ion e)
   | ["P"; e; b] -> GReady (ion e, b <> "0")
@@ -140,8 +149,8 @@ let parse_file path : hist list =
            | "H" :: _, _ ->
                let ev = { ge_op = parse_op opt out; ge_out = out; ge_obs = obs } in
                let st = (match ev.ge_op with
-                         | GUpdate (o, f, orc) ->
-                             let (s1, mo) = gupdate (ginit o) o f orc in
+                         | GUpdate (o, f, orc, rd) ->
+                             let (s1, mo) = gupdate (ginit o) o f orc rd in
                              if mo.og_err = Z0 then Some s1 else None
                          | _ -> None) in
                hs := { h_line = i + 1; h_events = [ev]; h_model = st } :: !hs
@@ -153,12 +162,12 @@ let parse_file path : hist list =
                 | h :: _ ->
                     let (t1, t2) = split_bar r in
                     let (op1, f1) = parse_opts t1 and (op2, f2) = parse_opts t2 in
-                    let g1 = GUpdate (op1, f1, List.map fst out.og_dials) in
+                    let g1 = GUpdate (op1, f1, List.map fst out.og_dials, fst !last_readys) in
                     let mid = (match h.h_model with
                                | Some st -> gobs_norm (gobserve (fst (gstep st g1)))
                                | None -> obs) in
                     advance h { ge_op = g1; ge_out = out; ge_obs = mid };
-                    advance h { ge_op = GUpdate (op2, f2, List.map fst o2.og_dials); ge_out = o2; ge_obs = obs }
+                    advance h { ge_op = GUpdate (op2, f2, List.map fst o2.og_dials, snd !last_readys); ge_out = o2; ge_obs = obs }
                 | [] -> raise (Bad "event before H"))
            | _ ->
                let ev = { ge_op = parse_op opt out; ge_out = out; ge_obs = obs } in
@@ -190,7 +199,7 @@ let cmeopt = function
 let copts o = Printf.sprintf "(mkGO %s %s)" (cn o.go_default)
     (clist (fun (n, m) -> "(" ^ cn n ^ ", " ^ cmeopt m ^ ")") o.go_mes)
 let cop = function
-  | GUpdate (o, f, orc) -> Printf.sprintf "GUpdate %s %s %s" (copts o) (clist cn f) (clist cn orc)
+  | GUpdate (o, f, orc, rd) -> Printf.sprintf "GUpdate %s %s %s %s" (copts o) (clist cn f) (clist cn orc) (clist cn rd)
   | GReady (e, b) -> Printf.sprintf "GReady %s %s" (cn e) (cb b)
   | GMark (b, e) -> Printf.sprintf "GMark %s %s" (cb b) (cn e)
   | GCall c -> "GCall " ^ cctx c
